@@ -1,6 +1,6 @@
 """Generic lints swept over every function a property's check anchors (the functions its rules looked up or
 reported on): loop-carried state (vk/loopstate.py).  Run by run_check.py after the property's own rules."""
-from . import loopstate
+from . import loopstate, guards, history
 
 
 def anchored_functions(ctx):
@@ -262,4 +262,7 @@ def sweep(ctx):
         rule_lib_pitfall(ctx, ctx.prop, fi)
         rule_unbound(ctx, ctx.prop, fi)
         rule_negative_wrap(ctx, ctx.prop, fi)
-    ctx.note("generic_lints", {"functions": len(fns), "lints": ["LOOP-STATE", "LEVEL-TABLE", "LIB-PITFALL", "U1", "U2", "NEG-WRAP"]})
+        guards.rule_new_guard(ctx, ctx.prop, fi)
+    nh = history.sweep(ctx, ctx.prop, [f for f in fns if f.module.relpath not in ctx.prog.excluded])
+    ctx.note("history_lints", {"functions_reachable_from_the_anchors": nh, "lints": ["MODULE-STATE", "INSTANCE-STATE", "MEMO-ORDER"]})
+    ctx.note("generic_lints", {"functions": len(fns), "lints": ["LOOP-STATE", "LEVEL-TABLE", "LIB-PITFALL", "U1", "U2", "NEG-WRAP", "NEW-GUARD"]})
